@@ -89,6 +89,13 @@ def validate_contract(h):
     buf = h.abytes("buffer")
     n = h.choice("checksum_len", [0, 1, 2, 3])
     chk = h.bytes("checksum", n)
+    rel = h.native_choice("checksum_relation", ["as drawn", "exact", "bytes swapped", "first byte right", "second byte right", "one bit off"])
+    if not h.symbolic and n == 2 and rel != "as drawn":
+        # native search only: random check bytes almost never come near the real CRC; steer them there
+        e = list(crc_spec.check_bytes(bytes(buf)))
+        c0 = list(chk)
+        chk = bytes({"exact": e, "bytes swapped": e[::-1], "first byte right": [e[0], c0[1]], "second byte right": [c0[0], e[1]],
+                     "one bit off": [e[0] ^ (1 << (c0[0] % 8)), e[1]]}[rel])
     calc = h.new(CRC_MOD + ":Crc16Modbus")
     if h.symbolic:
         use_calculate_contract(h)
